@@ -599,11 +599,14 @@ func (p *c20) runAPI(c *verifsim.Chooser, st *Stats, render bool) *Outcome {
 			want, wantFail := model.run(stmts, fields)
 			var rs [3]Result
 			for j, s := range sides {
-				if s.run {
-					rs[j] = doRun(s.e, obj)
-				} else {
-					rs[j] = doExecute(s.e, obj)
-				}
+				j, s := j, s
+				under(s.ctx, func() {
+					if s.run {
+						rs[j] = doRun(s.e, obj)
+					} else {
+						rs[j] = doExecute(s.e, obj)
+					}
+				})
 				if rs[j].Escaped != nil {
 					o.violate("C20/api-model", "panic", "%s: %s", s.name, rs[j].Escaped.Value)
 				}
